@@ -263,6 +263,41 @@ class MG:
                              call("sbepp::cursor_ops::init_dont_move(c)"), X))
         return "\n".join(o) + "\n"
 
+    def _skip_members(s, node, var):
+        st = "".join("%s.%s(sbepp::cursor_ops::skip(c)); " % (var, f.name) for f in node.fields if not f.is_constant)
+        st += "".join("%s.%s(sbepp::cursor_ops::skip(c)); " % (var, gr.name) for gr in node.groups)
+        st += "".join("%s.%s(sbepp::cursor_ops::skip(c)); " % (var, dt.name) for dt in node.data)
+        return st
+
+    def cpp_cursor_ranges(s):
+        """cursor_range / cursor_subrange over every group: entries are consumed with skip on each member"""
+        o = []
+        for (path, gr, d) in s.groups:
+            n = pn(path); par = s.nav(path[:-1])
+            body = s._skip_members(gr, "e")
+            o.append("W void crange_%s_%s(char* p, size_t n, IDX, int64_t* addrs, uint32_t cap, int64_t* out){ %s auto lv = %s; sbepp::cursor<char> c; auto g = lv.%s(sbepp::cursor_ops::init(c)); "
+                     "uint32_t k = 0; for(auto e : g.cursor_range(c)){ if(k < cap) addrs[k] = (const char*)sbepp::addressof(e) - p; k++; %s} out[0] = k; out[1] = c.pointer() - p; }" % (
+                         s.M, n, s.view(), par, gr.name, body))
+            o.append("W void csub_%s_%s(char* p, size_t n, IDX, uint64_t pos, uint64_t cnt, uint32_t use_cnt, int64_t coff, int64_t* addrs, uint32_t cap, int64_t* out){ %s auto lv = %s; auto g = lv.%s(); "
+                     "sbepp::cursor<char> c; c.pointer() = p + coff; using S = typename decltype(g)::size_type; uint32_t k = 0; "
+                     "if(use_cnt){ for(auto e : g.cursor_subrange(c, (S)pos, (S)cnt)){ if(k < cap) addrs[k] = (const char*)sbepp::addressof(e) - p; k++; %s} } "
+                     "else { for(auto e : g.cursor_subrange(c, (S)pos)){ if(k < cap) addrs[k] = (const char*)sbepp::addressof(e) - p; k++; %s} } out[0] = k; out[1] = c.pointer() - p; }" % (
+                         s.M, n, s.view(), par, gr.name, body, body))
+        return "\n".join(o) + "\n"
+
+    def cpp_cursor_setters(s):
+        o = []
+        for lv in s.levels:
+            e = s.nav(lv.path)
+            for m in s.cursor_members(lv):
+                if m["kind"] != "scalar": continue
+                X = m["name"]
+                call = lambda cur: "lv.%s(from_bits<decltype(lv.%s())>(v), %s)" % (X, X, cur)
+                o.append("W void curset_%s_%s_%s(char* p, size_t n, IDX, uint32_t kind, int64_t coff, uint64_t v, int64_t* out){ %s auto lv = %s; sbepp::cursor<char> c; c.pointer() = p + coff; "
+                         "switch(kind){ case 0: %s; break; case 1: %s; break; case 2: %s; break; default: %s; break; } out[0] = c.pointer() - p; }" % (
+                             s.M, lv.name, X, s.view(), e, call("c"), call("sbepp::cursor_ops::init(c)"), call("sbepp::cursor_ops::dont_move(c)"), call("sbepp::cursor_ops::init_dont_move(c)")))
+        return "\n".join(o) + "\n"
+
     # ------------------------------------------------------------------ harness prologue
     def prologue(s, N, E, D, guard_bytes=0):
         """declares buf (symbolic image), old copy, geometry r"""
